@@ -1273,3 +1273,662 @@ Proof.
   - exact (transfer_loop_head _ _ _ _ _ Hg' _ _ _ _ _ Hr).
   - intros i Hi. exact (transfer_loop_retry _ _ _ _ _ Hg' _ _ _ _ _ _ Hr Hi).
 Qed.
+
+(* --- own address only --- *)
+Definition addressed_ok (a : N) (m : msg) : Prop :=
+  match m with
+  | Hello a' | QueryState a' | RequestOperation a' _ | PixelsComplete a' | Goodbye a' => a' = a
+  | SendData _ _ | DataChunksSent _ => True
+  | ReportState _ _ | AckOperation _ _ | Unknown _ => False
+  end.
+
+Fixpoint all_sends {A : Type} (P : msg -> Prop) (p : prog A) : Prop :=
+  match p with
+  | Send m k => P m /\ forall r, all_sends P (k r)
+  | _ => True
+  end.
+
+Lemma all_sends_run {A} (P : msg -> Prop) (p : prog A) script :
+  all_sends P p -> Forall P (fst (run_script p script)).
+Proof.
+  revert script. induction p as [x| | |m k IH]; intros script H; try constructor.
+  destruct H as [Hm Hk]. destruct script as [|[|r] script']; cbn [run_script].
+  - repeat constructor. exact Hm.
+  - repeat constructor. exact Hm.
+  - specialize (IH r script' (Hk r)). destruct (run_script (k r) script') as [tr o].
+    constructor; assumption.
+Qed.
+
+Lemma all_sends_bind {A B} (P : msg -> Prop) (p : prog A) (f : A -> prog B) :
+  all_sends P p -> (forall x, all_sends P (f x)) -> all_sends P (bind p f).
+Proof.
+  intros Hp Hf. induction p as [x| | |m k IH]; cbn [bind all_sends] in *; auto.
+  destruct Hp as [Hm Hk]. split; [exact Hm|]. intros r. apply IH. apply Hk.
+Qed.
+
+Lemma all_sends_send (P : msg -> Prop) m : P m -> all_sends P (send m).
+Proof. intros H. cbn. split; [exact H | intros; exact I]. Qed.
+
+Lemma all_sends_verify (P : msg -> Prop) e r : all_sends P (verify e r).
+Proof. unfold verify. destruct (omsg_eqb r e); exact I. Qed.
+
+Lemma all_sends_expect (P : msg -> Prop) m e : P m -> all_sends P (expect m e).
+Proof.
+  intros H. unfold expect. apply all_sends_bind; [apply all_sends_send; exact H|].
+  intros r. apply all_sends_verify.
+Qed.
+
+Ltac sends_tac :=
+  repeat first
+    [ exact I
+    | apply all_sends_verify
+    | apply all_sends_expect; reflexivity
+    | apply all_sends_send; reflexivity
+    | apply all_sends_bind; [|intros ?]
+    | match goal with |- all_sends _ (if ?b then _ else _) => destruct b end ].
+
+Lemma own_ensure_unconfigured a : all_sends (addressed_ok a) (ensure_unconfigured a).
+Proof.
+  unfold ensure_unconfigured. apply all_sends_bind; [apply all_sends_send; reflexivity|].
+  intros r. destruct r as [m|]; [destruct m; try destruct s|]; cbv beta iota zeta; sends_tac.
+Qed.
+
+Lemma own_send_chunks a cs i count : all_sends (addressed_ok a) (send_chunks cs i count).
+Proof.
+  revert i count. induction cs as [|c t IH]; intros i count; cbn [send_chunks]; [exact I|].
+  apply all_sends_bind; [apply all_sends_expect; exact I|]. intros _.
+  destruct (count + 1 <? 65536); [apply IH | exact I].
+Qed.
+
+Lemma own_send_items a items count : all_sends (addressed_ok a) (send_items items count).
+Proof.
+  revert count. induction items as [|item t IH]; intros count; cbn [send_items]; [exact I|].
+  apply all_sends_bind; [apply own_send_chunks | intros c; apply IH].
+Qed.
+
+Lemma own_attempt a op items : all_sends (addressed_ok a) (attempt a op items).
+Proof.
+  unfold attempt. apply all_sends_bind; [apply all_sends_expect; reflexivity|]. intros _.
+  apply all_sends_bind; [apply own_send_items|]. intros n.
+  apply all_sends_bind; [apply all_sends_expect; exact I|]. intros _.
+  apply all_sends_send. reflexivity.
+Qed.
+
+Lemma own_transfer_loop n a op items su fa :
+  all_sends (addressed_ok a) (transfer_loop n a op items su fa).
+Proof.
+  induction n as [|n IH]; cbn [transfer_loop]; (apply all_sends_bind; [apply own_attempt|]);
+    intros r; sends_tac. exact IH.
+Qed.
+
+Lemma own_configure a t : all_sends (addressed_ok a) (configure a t).
+Proof.
+  unfold configure. apply all_sends_bind; [apply own_ensure_unconfigured|]. intros _.
+  apply own_transfer_loop.
+Qed.
+
+Lemma own_configure_if_needed a t : all_sends (addressed_ok a) (configure_if_needed a t).
+Proof.
+  unfold configure_if_needed. apply all_sends_bind; [apply all_sends_send; reflexivity|].
+  intros r. destruct r as [m|]; [destruct m|]; cbv beta iota; try apply own_configure.
+  destruct ((a0 =? a) && ready_state s); [exact I | apply own_configure].
+Qed.
+
+Lemma own_send_pages a pages : all_sends (addressed_ok a) (send_pages a pages).
+Proof.
+  unfold send_pages. apply all_sends_bind; [apply own_transfer_loop|]. intros _.
+  apply all_sends_bind; [apply all_sends_expect; reflexivity|]. intros _.
+  apply all_sends_bind; [apply all_sends_send; reflexivity|]. intros r.
+  rewrite send_pages_style. exact I.
+Qed.
+
+Lemma own_switch_page fuel a tg tr op : all_sends (addressed_ok a) (switch_page fuel a tg tr op).
+Proof.
+  induction fuel as [|fuel IH]; cbn [switch_page]; [exact I|].
+  apply all_sends_bind; [apply all_sends_send; reflexivity|]. intros r.
+  destruct r as [m|]; [destruct m|]; cbv beta iota; try exact I.
+  sends_tac; exact IH.
+Qed.
+
+Lemma own_shut_down a : all_sends (addressed_ok a) (shut_down a).
+Proof. apply all_sends_expect. reflexivity. Qed.
+
+Definition cop_addr (op : cop) : N :=
+  match op with
+  | OpConfigure a _ | OpConfigureIfNeeded a _ | OpSendPages a _
+  | OpLoadNextPage a | OpShowLoadedPage a | OpShutDown a => a
+  end.
+
+Lemma C11_own_address_lemma : forall op fuel script,
+  Forall (addressed_ok (cop_addr op)) (fst (run_script (model_of op fuel) script)).
+Proof.
+  intros op fuel script. apply all_sends_run. destruct op; cbn [model_of cop_addr].
+  - apply own_configure.
+  - apply own_configure_if_needed.
+  - apply own_send_pages.
+  - apply own_switch_page.
+  - apply own_switch_page.
+  - apply own_shut_down.
+Qed.
+
+(* --- replies carrying another address are never taken for the controller's own --- *)
+Definition foreign (a : N) (m : msg) : Prop :=
+  match m with
+  | ReportState a' _ | AckOperation a' _ => a' <> a
+  | _ => False
+  end.
+
+(* two replies are alike for the controller at [a]: equal, or both foreign reports/acks *)
+Definition osim (a : N) (r1 r2 : option msg) : Prop :=
+  r1 = r2 \/ exists m1 m2, r1 = Some m1 /\ r2 = Some m2 /\ foreign a m1 /\ foreign a m2.
+
+Definition rsim (a : N) (x y : reply) : Prop :=
+  x = y \/ exists m1 m2, x = Rep (Some m1) /\ y = Rep (Some m2) /\ foreign a m1 /\ foreign a m2.
+
+Inductive sim_prog {A : Type} (a : N) (R : A -> A -> Prop) : prog A -> prog A -> Prop :=
+| SimRet x y : R x y -> sim_prog a R (Ret x) (Ret y)
+| SimFail : sim_prog a R Fail Fail
+| SimCrash : sim_prog a R Crash Crash
+| SimSend m k1 k2 :
+    (forall r1 r2, osim a r1 r2 -> sim_prog a R (k1 r1) (k2 r2)) ->
+    sim_prog a R (Send m k1) (Send m k2).
+
+Lemma sim_run {A} a (p q : prog A) :
+  sim_prog a eq p q ->
+  forall s1 s2, Forall2 (rsim a) s1 s2 -> run_script p s1 = run_script q s2.
+Proof.
+  intros H. induction H as [x y Hxy| | |m k1 k2 Hk IH]; intros s1 s2 Hs.
+  - subst. reflexivity.
+  - reflexivity.
+  - reflexivity.
+  - destruct Hs as [|x y s1 s2 Hxy Hs]; [reflexivity|].
+    destruct Hxy as [<-|(m1 & m2 & -> & -> & F1 & F2)].
+    + destruct x as [|r]; [reflexivity|]. cbn [run_script].
+      rewrite (IH r r (or_introl eq_refl) s1 s2 Hs). reflexivity.
+    + cbn [run_script].
+      rewrite (IH (Some m1) (Some m2)) with (s2 := s2); [reflexivity| |exact Hs].
+      right. exists m1, m2. repeat split; assumption.
+Qed.
+
+Lemma sim_bind {A B} a (R : A -> A -> Prop) (R' : B -> B -> Prop) (p q : prog A)
+      (f g : A -> prog B) :
+  sim_prog a R p q -> (forall x y, R x y -> sim_prog a R' (f x) (g y)) ->
+  sim_prog a R' (bind p f) (bind q g).
+Proof.
+  intros H Hf. induction H as [x y Hxy| | |m k1 k2 Hk IH]; cbn [bind].
+  - apply Hf. exact Hxy.
+  - constructor.
+  - constructor.
+  - constructor. intros r1 r2 Hr. apply IH. exact Hr.
+Qed.
+
+Lemma sim_send a m : sim_prog a (osim a) (send m) (send m).
+Proof. constructor. intros r1 r2 H. constructor. exact H. Qed.
+
+Definition expected_own (a : N) (e : option msg) : Prop :=
+  match e with
+  | None => True
+  | Some (ReportState a' _) | Some (AckOperation a' _) => a' = a
+  | _ => False
+  end.
+
+Lemma foreign_not_expected a m e :
+  foreign a m -> expected_own a e -> omsg_eqb (Some m) e = false.
+Proof.
+  intros F E. destruct e as [e|]; [|reflexivity].
+  destruct m; cbn in F; try contradiction; destruct e; cbn in E; try contradiction;
+    try reflexivity; subst; cbn [omsg_eqb option_eqb msg_eqb];
+    (destruct (N.eqb_spec a0 a); [contradiction | reflexivity]).
+Qed.
+
+Lemma sim_verify a e r1 r2 :
+  expected_own a e -> osim a r1 r2 -> sim_prog a eq (verify e r1) (verify e r2).
+Proof.
+  intros E [<-|(m1 & m2 & -> & -> & F1 & F2)]; unfold verify.
+  - destruct (omsg_eqb r1 e); constructor. reflexivity.
+  - rewrite (foreign_not_expected a m1 e F1 E), (foreign_not_expected a m2 e F2 E). constructor.
+Qed.
+
+Lemma sim_expect a m e : expected_own a e -> sim_prog a eq (expect m e) (expect m e).
+Proof.
+  intros E. unfold expect. apply sim_bind with (R := osim a); [apply sim_send|].
+  intros r1 r2 H. apply sim_verify; assumption.
+Qed.
+
+Lemma sim_ret {A} a (x : A) : sim_prog a eq (Ret x) (Ret x).
+Proof. constructor. reflexivity. Qed.
+
+Ltac blind_seq :=
+  repeat first
+    [ apply sim_ret
+    | apply SimFail
+    | apply SimCrash
+    | apply sim_expect; exact I
+    | apply sim_expect; reflexivity
+    | apply sim_bind with (R := eq); [|intros ? ? <-] ].
+
+Ltac foreign_cases F1 F2 m1 m2 :=
+  destruct m1; cbn [foreign] in F1; try contradiction;
+  destruct m2; cbn [foreign] in F2; try contradiction;
+  repeat match goal with
+         | H : ?x <> ?a |- context [?x =? ?a] =>
+             destruct (N.eqb_spec x a); [contradiction|]
+         end.
+
+Lemma blind_ensure_unconfigured a :
+  sim_prog a eq (ensure_unconfigured a) (ensure_unconfigured a).
+Proof.
+  unfold ensure_unconfigured. apply sim_bind with (R := osim a); [apply sim_send|].
+  intros r1 r2 [<-|(m1 & m2 & -> & -> & F1 & F2)].
+  - destruct r1 as [m|]; [destruct m; try destruct s|]; cbv beta iota zeta;
+      try destruct (_ =? _); blind_seq.
+  - foreign_cases F1 F2 m1 m2; try destruct s; try destruct s0; cbv beta iota zeta; blind_seq.
+Qed.
+
+Lemma blind_send_chunks a cs i count :
+  sim_prog a eq (send_chunks cs i count) (send_chunks cs i count).
+Proof.
+  revert i count. induction cs as [|c t IH]; intros i count; cbn [send_chunks]; [apply sim_ret|].
+  apply sim_bind with (R := eq); [apply sim_expect; exact I|]. intros ? ? <-.
+  destruct (count + 1 <? 65536); [apply IH | apply SimCrash].
+Qed.
+
+Lemma blind_send_items a items count :
+  sim_prog a eq (send_items items count) (send_items items count).
+Proof.
+  revert count. induction items as [|item t IH]; intros count; cbn [send_items]; [apply sim_ret|].
+  apply sim_bind with (R := eq); [apply blind_send_chunks|]. intros c ? <-. apply IH.
+Qed.
+
+Lemma blind_attempt a op items :
+  sim_prog a (osim a) (attempt a op items) (attempt a op items).
+Proof.
+  unfold attempt.
+  apply sim_bind with (R := eq); [apply sim_expect; reflexivity|]. intros ? ? <-.
+  apply sim_bind with (R := eq); [apply blind_send_items|]. intros n ? <-.
+  apply sim_bind with (R := eq); [apply sim_expect; exact I|]. intros ? ? <-.
+  apply sim_send.
+Qed.
+
+Lemma blind_transfer_loop n a op items su fa :
+  sim_prog a eq (transfer_loop n a op items su fa) (transfer_loop n a op items su fa).
+Proof.
+  assert (Hv : forall r1 r2, osim a r1 r2 ->
+            sim_prog a eq (verify (Some (ReportState a su)) r1)
+                          (verify (Some (ReportState a su)) r2)).
+  { intros r1 r2 H. apply sim_verify; [reflexivity | exact H]. }
+  induction n as [|n IH]; cbn [transfer_loop];
+    (apply sim_bind with (R := osim a); [apply blind_attempt|]); intros r1 r2 H.
+  - apply Hv. exact H.
+  - destruct H as [<-|(m1 & m2 & -> & -> & F1 & F2)].
+    + destruct (omsg_eqb r1 _); [exact IH | apply Hv; left; reflexivity].
+    + rewrite (foreign_not_expected a m1 _ F1), (foreign_not_expected a m2 _ F2)
+        by reflexivity.
+      apply Hv. right. exists m1, m2. repeat split; assumption.
+Qed.
+
+Lemma blind_configure a t : sim_prog a eq (configure a t) (configure a t).
+Proof.
+  unfold configure. apply sim_bind with (R := eq); [apply blind_ensure_unconfigured|].
+  intros ? ? <-. apply blind_transfer_loop.
+Qed.
+
+Lemma blind_configure_if_needed a t :
+  sim_prog a eq (configure_if_needed a t) (configure_if_needed a t).
+Proof.
+  unfold configure_if_needed. apply sim_bind with (R := osim a); [apply sim_send|].
+  intros r1 r2 [<-|(m1 & m2 & -> & -> & F1 & F2)].
+  - destruct r1 as [m|]; [destruct m|]; cbv beta iota; try apply blind_configure.
+    destruct (_ && _); [apply sim_ret | apply blind_configure].
+  - foreign_cases F1 F2 m1 m2; cbn [andb]; apply blind_configure.
+Qed.
+
+Lemma foreign_not_report a st m : foreign a m -> is_own_report a st (Some m) = false.
+Proof.
+  intros F. destruct m; cbn [foreign] in F; try contradiction; try reflexivity.
+  cbn [is_own_report]. destruct (N.eqb_spec a0 a); [contradiction | reflexivity].
+Qed.
+
+Lemma blind_send_pages a pages : sim_prog a eq (send_pages a pages) (send_pages a pages).
+Proof.
+  unfold send_pages. apply sim_bind with (R := eq); [apply blind_transfer_loop|].
+  intros ? ? <-. apply sim_bind with (R := eq); [apply sim_expect; exact I|].
+  intros ? ? <-. apply sim_bind with (R := osim a); [apply sim_send|].
+  intros r1 r2 H. rewrite !send_pages_style. constructor.
+  destruct H as [<-|(m1 & m2 & -> & -> & F1 & F2)]; [reflexivity|].
+  rewrite !foreign_not_report by assumption. reflexivity.
+Qed.
+
+Lemma blind_switch_page fuel a tg tr op :
+  sim_prog a eq (switch_page fuel a tg tr op) (switch_page fuel a tg tr op).
+Proof.
+  induction fuel as [|fuel IH]; cbn [switch_page]; [apply SimCrash|].
+  apply sim_bind with (R := osim a); [apply sim_send|].
+  intros r1 r2 [<-|(m1 & m2 & -> & -> & F1 & F2)].
+  - destruct r1 as [m|]; [destruct m|]; cbv beta iota; try apply SimFail.
+    repeat match goal with
+           | |- sim_prog _ _ (if ?b then _ else _) (if ?b then _ else _) => destruct b
+           end; blind_seq; exact IH.
+  - foreign_cases F1 F2 m1 m2; apply SimFail.
+Qed.
+
+Lemma blind_shut_down a : sim_prog a eq (shut_down a) (shut_down a).
+Proof. apply sim_expect. exact I. Qed.
+
+Lemma blind_model_of op fuel :
+  sim_prog (cop_addr op) eq (model_of op fuel) (model_of op fuel).
+Proof.
+  destruct op; cbn [model_of cop_addr].
+  - apply blind_configure.
+  - apply blind_configure_if_needed.
+  - apply blind_send_pages.
+  - apply blind_switch_page.
+  - apply blind_switch_page.
+  - apply blind_shut_down.
+Qed.
+
+Lemma C11_foreign_blind_lemma : forall op fuel s1 s2,
+  Forall2 (rsim (cop_addr op)) s1 s2 ->
+  run_script (model_of op fuel) s1 = run_script (model_of op fuel) s2.
+Proof. intros op fuel s1 s2 H. apply (sim_run _ _ _ (blind_model_of op fuel)). exact H. Qed.
+
+Lemma rsim_refl_list a s : Forall2 (rsim a) s s.
+Proof. induction s; constructor; [left; reflexivity | assumption]. Qed.
+
+Lemma C11_foreign_blind_one_lemma : forall op fuel pre post m1 m2,
+  foreign (cop_addr op) m1 -> foreign (cop_addr op) m2 ->
+  run_script (model_of op fuel) (pre ++ Rep (Some m1) :: post)
+  = run_script (model_of op fuel) (pre ++ Rep (Some m2) :: post).
+Proof.
+  intros op fuel pre post m1 m2 F1 F2. apply C11_foreign_blind_lemma.
+  apply Forall2_app; [apply rsim_refl_list|]. constructor; [|apply rsim_refl_list].
+  right. exists m1, m2. repeat split; assumption.
+Qed.
+
+(* and the general transfer, for any operation/states *)
+Lemma C11_foreign_blind_transfer_lemma : forall a op items su fa s1 s2,
+  Forall2 (rsim a) s1 s2 ->
+  run_script (transfer a op items su fa) s1 = run_script (transfer a op items su fa) s2.
+Proof. intros. apply (sim_run _ _ _ (blind_transfer_loop 2 a op items su fa)). assumption. Qed.
+
+(* ================================================================== *)
+(* 11. C10: the model refines the protocol specification                *)
+
+Lemma rsr_expect_then m e ok (p : prog unit) c s :
+  (forall r, omsg_eqb r e = ok r) ->
+  (forall rest, run_script_rest p rest = expect_seq c rest) ->
+  run_script_rest (expect m e ;;; p) s = expect_seq ((m, ok) :: c) s.
+Proof.
+  intros He Hp. rewrite run_script_rest_bind, (rsr_expect m e ok) by exact He.
+  rewrite (expect_seq_cons m ok c). apply and_then_ext. intros _ rest. apply Hp.
+Qed.
+
+Lemma rsr_transfer_loop n a op items su fa s :
+  su <> fa -> chunk_guard items ->
+  run_script_rest (transfer_loop n a op items su fa) s = transfer_from n a op items su fa s.
+Proof.
+  intros Hne Hg. revert s. induction n as [|n IH]; intros s; cbn [transfer_loop transfer_from];
+    rewrite run_script_rest_bind, rsr_attempt by exact Hg;
+    rewrite and_then_assoc; apply and_then_ext; intros _ rest;
+    apply and_then_ext; intros r rest'.
+  - rewrite rsr_verify_report. unfold finish, reject.
+    destruct (is_own_report a su r); [reflexivity|].
+    destruct (is_own_report a fa r); reflexivity.
+  - rewrite omsg_eqb_report. destruct (is_own_report a fa r) eqn:Hf.
+    + apply is_own_report_true in Hf. subst r.
+      assert (Hs : is_own_report a su (Some (ReportState a fa)) = false).
+      { destruct (is_own_report a su (Some (ReportState a fa))) eqn:E; [|reflexivity].
+        apply is_own_report_true in E. congruence. }
+      rewrite Hs. apply IH.
+    + rewrite rsr_verify_report. unfold finish, reject.
+      destruct (is_own_report a su r); reflexivity.
+Qed.
+
+Lemma rsr_transfer a op items su fa s :
+  su <> fa -> chunk_guard items ->
+  run_script_rest (transfer a op items su fa) s = spec_transfer a op items su fa s.
+Proof. apply rsr_transfer_loop. Qed.
+
+Lemma rsr_finish_reset a s :
+  run_script_rest
+    (expect (RequestOperation a FinishReset) (Some (AckOperation a FinishReset)) ;;;
+     expect (Hello a) (Some (ReportState a Unconfigured))) s
+  = expect_seq (finish_reset a) s.
+Proof.
+  unfold finish_reset.
+  apply rsr_expect_then; [intros r; apply omsg_eqb_ack | intros rest].
+  apply rsr_expect_report.
+Qed.
+
+Lemma rsr_full_reset a s :
+  run_script_rest
+    (expect (RequestOperation a StartReset) (Some (AckOperation a StartReset)) ;;;
+     expect (Hello a) (Some (ReportState a ReadyToReset)) ;;;
+     expect (RequestOperation a FinishReset) (Some (AckOperation a FinishReset)) ;;;
+     expect (Hello a) (Some (ReportState a Unconfigured))) s
+  = expect_seq (full_reset a) s.
+Proof.
+  unfold full_reset. cbn [app].
+  apply rsr_expect_then; [intros r; apply omsg_eqb_ack | intros rest].
+  apply rsr_expect_then; [intros r; apply omsg_eqb_report | intros rest'].
+  apply rsr_finish_reset.
+Qed.
+
+Lemma rsr_ensure_unconfigured a s :
+  run_script_rest (ensure_unconfigured a) s = spec_reset a s.
+Proof.
+  unfold ensure_unconfigured, spec_reset. rewrite run_script_rest_bind, rsr_send.
+  apply and_then_ext. intros r rest. cbv zeta. unfold reset_conv.
+  destruct r as [m|]; [destruct m|]; try apply rsr_full_reset.
+  cbn [is_own_report].
+  destruct s0; cbn [same_state]; rewrite ?andb_false_r, ?andb_true_r; cbv beta iota;
+    try apply rsr_full_reset.
+  - destruct (a0 =? a); [reflexivity | apply rsr_full_reset].
+  - destruct (a0 =? a); [apply rsr_finish_reset | apply rsr_full_reset].
+Qed.
+
+Lemma config_chunk_guard t : chunk_guard [st_to_bytes t].
+Proof. apply chunk_guard_total. apply config_guard. Qed.
+
+Lemma rsr_configure a t s : run_script_rest (configure a t) s = spec_configure a t s.
+Proof.
+  unfold configure, spec_configure. rewrite run_script_rest_bind, rsr_ensure_unconfigured.
+  apply and_then_ext. intros _ rest.
+  apply rsr_transfer; [discriminate | apply config_chunk_guard].
+Qed.
+
+Lemma rsr_configure_if_needed a t s :
+  run_script_rest (configure_if_needed a t) s = spec_configure_if_needed a t s.
+Proof.
+  unfold configure_if_needed, spec_configure_if_needed.
+  rewrite run_script_rest_bind, rsr_send. apply and_then_ext. intros r rest.
+  destruct r as [m|]; [destruct m|]; cbn [existsb ready_states is_own_report orb];
+    try apply rsr_configure.
+  destruct s0; cbn [same_state ready_state];
+    rewrite ?andb_false_r, ?andb_true_r, ?orb_false_r; cbn [orb];
+    try apply rsr_configure;
+    (destruct (a0 =? a); cbn [orb]; [reflexivity | apply rsr_configure]).
+Qed.
+
+Lemma rsr_send_pages a pages s :
+  chunk_guard (map p_bytes pages) ->
+  run_script_rest (send_pages a pages) s = spec_send_pages a pages s.
+Proof.
+  intros Hg. unfold send_pages, spec_send_pages.
+  rewrite run_script_rest_bind, rsr_transfer by (try discriminate; exact Hg).
+  apply and_then_ext. intros _ rest.
+  rewrite run_script_rest_bind, rsr_expect_none. apply and_then_ext. intros _ rest1.
+  rewrite run_script_rest_bind, rsr_send. apply and_then_ext. intros r rest2.
+  rewrite send_pages_style. reflexivity.
+Qed.
+
+Section Switch.
+Variables (a : N) (tg tr : state) (op : operation).
+
+Lemma rsr_switch_requesting fuel s :
+  (forall s', (length s' < fuel)%nat ->
+     run_script_rest (switch_page fuel a tg tr op) s' = spec_switch a tg tr op Polling s') ->
+  (length s <= fuel)%nat ->
+  run_script_rest
+    (expect (RequestOperation a op) (Some (AckOperation a op)) ;;; switch_page fuel a tg tr op) s
+  = spec_switch a tg tr op Requesting s.
+Proof.
+  intros IH Hl. rewrite run_script_rest_bind, rsr_expect_ack.
+  destruct s as [|[|r2] s']; [reflexivity | reflexivity |].
+  rewrite expect_seq_step_rep. cbn [spec_switch].
+  destruct (is_own_ack a op r2); [|reflexivity].
+  rewrite expect_seq_nil. cbn [and_then]. cbn [length] in Hl. rewrite IH by lia.
+  destruct (spec_switch a tg tr op Polling s') as [[t o] rest]. reflexivity.
+Qed.
+
+Lemma rsr_switch_page fuel s :
+  (length s < fuel)%nat ->
+  run_script_rest (switch_page fuel a tg tr op) s = spec_switch a tg tr op Polling s.
+Proof.
+  revert s. induction fuel as [|fuel IH]; intros s Hl; [lia|].
+  cbn [switch_page]. destruct s as [|[|r] s']; [reflexivity | reflexivity |].
+  cbn [length] in Hl.
+  cbn [bind send run_script_rest]. cbn [spec_switch].
+  destruct r as [m|]; [destruct m|]; try reflexivity.
+  cbn [is_own_report]. unfold state_is. rewrite !state_eqb_same.
+  destruct (a0 =? a); cbn [andb orb]; [|reflexivity].
+  destruct (same_state s ShowingPages); cbn [orb]; [reflexivity|].
+  destruct (same_state s tg); [reflexivity|].
+  destruct (same_state s tr).
+  - rewrite rsr_switch_requesting; [reflexivity | exact IH | lia].
+  - destruct (same_state s PageLoadInProgress || same_state s PageShowInProgress);
+      [|reflexivity].
+    rewrite IH by lia. reflexivity.
+Qed.
+
+End Switch.
+
+Lemma rsr_shut_down a s : run_script_rest (shut_down a) s = spec_shut_down a s.
+Proof. apply rsr_expect_none. Qed.
+
+Lemma C10_refines_rest : forall op script fuel,
+  guard op -> (length script < fuel)%nat ->
+  run_script_rest (model_of op fuel) script = spec_run_rest op script.
+Proof.
+  intros op script fuel Hg Hl. destruct op; cbn [model_of spec_run_rest].
+  - apply rsr_configure.
+  - apply rsr_configure_if_needed.
+  - apply rsr_send_pages. exact Hg.
+  - apply rsr_switch_page. exact Hl.
+  - apply rsr_switch_page. exact Hl.
+  - apply rsr_shut_down.
+Qed.
+
+Lemma C10_refines_lemma : forall op script fuel,
+  guard op -> (length script < fuel)%nat ->
+  run_script (model_of op fuel) script = spec_run op script.
+Proof.
+  intros op script fuel Hg Hl. unfold spec_run.
+  rewrite <- C10_refines_rest with (fuel := fuel) by assumption.
+  symmetry. apply run_script_rest_fst.
+Qed.
+
+(* ------------------------------------------------------------------ *)
+(* The specification never yields Crashed; hence neither does the model under the guard. *)
+
+Definition no_crash {A} (x : run A) : Prop := snd (fst x) <> Crashed.
+
+Lemma no_crash_and_then {A B} (x : run A) (f : A -> list reply -> run B) :
+  no_crash x -> (forall v r, no_crash (f v r)) -> no_crash (and_then x f).
+Proof.
+  unfold no_crash. destruct x as [[t o] rest]. destruct o; cbn [and_then fst snd]; intros Hx Hf;
+    try discriminate; try congruence.
+  specialize (Hf a rest). destruct (f a rest) as [[t' o'] rest']. exact Hf.
+Qed.
+
+Lemma no_crash_ask m s : no_crash (ask m s).
+Proof. destruct s as [|[|r] s]; discriminate. Qed.
+
+Lemma no_crash_expect_seq c s : no_crash (expect_seq c s).
+Proof.
+  destruct (expect_seq c s) as [[t o] rest] eqn:E.
+  destruct (expect_seq_shape _ _ _ _ _ E) as (_ & _ & H & _). exact H.
+Qed.
+
+Lemma no_crash_transfer_from n a op items su fa s : no_crash (transfer_from n a op items su fa s).
+Proof.
+  revert s. induction n as [|n IH]; intros s; cbn [transfer_from];
+    (apply no_crash_and_then; [apply no_crash_expect_seq|]); intros _ r1;
+    (apply no_crash_and_then; [apply no_crash_ask|]); intros r r2;
+    destruct (is_own_report a su r); try discriminate;
+    destruct (is_own_report a fa r); try discriminate. apply IH.
+Qed.
+
+Lemma no_crash_spec_configure a t s : no_crash (spec_configure a t s).
+Proof.
+  unfold spec_configure, spec_reset.
+  apply no_crash_and_then; [|intros; apply no_crash_transfer_from].
+  apply no_crash_and_then; [apply no_crash_ask | intros; apply no_crash_expect_seq].
+Qed.
+
+Lemma no_crash_spec_switch a tg tr op st s : no_crash (spec_switch a tg tr op st s).
+Proof.
+  revert st. induction s as [|[|r] s IH]; intros st; try discriminate.
+  assert (Hgo : forall st' m,
+    no_crash (let '(t, o, rest') := spec_switch a tg tr op st' s in (m :: t, o, rest'))).
+  { intros st' m. specialize (IH st'). destruct (spec_switch a tg tr op st' s) as [[t o] rest].
+    exact IH. }
+  cbn [spec_switch]. destruct st.
+  - destruct (_ || _); [discriminate|]. destruct (is_own_report a tr r); [apply Hgo|].
+    destruct (_ || _); [apply Hgo | discriminate].
+  - destruct (is_own_ack a op r); [apply Hgo | discriminate].
+Qed.
+
+Lemma C10_spec_no_crash_lemma : forall op script, snd (spec_run op script) <> Crashed.
+Proof.
+  intros op script. unfold spec_run. change (no_crash (spec_run_rest op script)).
+  destruct op; cbn [spec_run_rest].
+  - apply no_crash_spec_configure.
+  - unfold spec_configure_if_needed. apply no_crash_and_then; [apply no_crash_ask|].
+    intros r rest. destruct (existsb _ _); [discriminate | apply no_crash_spec_configure].
+  - unfold spec_send_pages.
+    apply no_crash_and_then; [apply no_crash_transfer_from|]. intros _ r1.
+    apply no_crash_and_then; [apply no_crash_expect_seq|]. intros _ r2.
+    apply no_crash_and_then; [apply no_crash_ask|]. intros r r3. discriminate.
+  - apply no_crash_spec_switch.
+  - apply no_crash_spec_switch.
+  - apply no_crash_expect_seq.
+Qed.
+
+Lemma C10_model_no_crash_lemma : forall op script fuel,
+  guard op -> (length script < fuel)%nat ->
+  snd (run_script (model_of op fuel) script) <> Crashed.
+Proof.
+  intros op script fuel Hg Hl. rewrite C10_refines_lemma by assumption.
+  apply C10_spec_no_crash_lemma.
+Qed.
+
+(* Fuel irrelevance of the polling loop (toolkit) *)
+Lemma switch_fuel_irrelevant : forall f1 f2 a tg tr op script,
+  (length script < f1)%nat -> (length script < f2)%nat ->
+  run_script (switch_page f1 a tg tr op) script = run_script (switch_page f2 a tg tr op) script.
+Proof.
+  intros f1 f2 a tg tr op script H1 H2.
+  rewrite <- !run_script_rest_fst, !rsr_switch_page by assumption. reflexivity.
+Qed.
+
+Lemma switch_no_crash : forall f1 a tg tr op script,
+  (length script < f1)%nat ->
+  snd (run_script (switch_page f1 a tg tr op) script) <> Crashed.
+Proof.
+  intros f1 a tg tr op script H1.
+  rewrite <- run_script_rest_fst, rsr_switch_page by assumption.
+  apply no_crash_spec_switch.
+Qed.
+
+(* ================================================================== *)
+(* 12. Script fragments used by the examples of props/C10.v (sign at address 3)  *)
+
+Definition ex_attempt_ok : list reply :=
+  [Rep (Some (AckOperation 3 ReceiveConfig)); Rep None; Rep None].
+Definition ex_failed : reply := Rep (Some (ReportState 3 ConfigFailed)).
+Definition ex_received : reply := Rep (Some (ReportState 3 ConfigReceived)).
+Definition ex_attempt_msgs : list msg :=
+  [RequestOperation 3 ReceiveConfig; SendData 0 (st_to_bytes Max3000Side90x7); DataChunksSent 1;
+   QueryState 3].
+
